@@ -137,3 +137,69 @@ Proof.
     + apply Hstep; [lia | exact H0].
     + intros i st Hi. apply Hstep. lia.
 Qed.
+
+(* ---- functions that may end the process (added for Glu_alloc / DynamicSetMap of pmemory.c) ----
+   A path of the C function that ends in a call that never returns (cfg "abort_calls": superlu_abort_and_exit, exit, abort) has
+   the distinguished result [Aborted]; every other path ends in [Returned v]. *)
+Inductive outcome (A : Type) : Type := Returned (a : A) | Aborted.
+Arguments Returned {A} a.
+Arguments Aborted {A}.
+
+Lemma Returned_inj (A : Type) (a b : A) : Returned a = Returned b -> a = b.
+Proof. intros Heq. injection Heq as Hab. exact Hab. Qed.
+
+(* ---- mutable integer arrays reached through a pointer (cfg "parrays"): the value is a function Z -> Z, a store is zupd ---- *)
+Definition zupd (m : Z -> Z) (i v : Z) : Z -> Z := fun j => if j =? i then v else m j.
+
+Lemma zupd_same m i v : zupd m i v i = v.
+Proof. unfold zupd. now rewrite Z.eqb_refl. Qed.
+Lemma zupd_other m i v j : j <> i -> zupd m i v j = m j.
+Proof. intros Hne. unfold zupd. destruct (j =? i) eqn:E; [apply Z.eqb_eq in E; contradiction | reflexivity]. Qed.
+Lemma zupd_eq m m' i i' v v' : m = m' -> i = i' -> v = v' -> zupd m i v = zupd m' i' v'.
+Proof. intros -> -> ->. reflexivity. Qed.
+
+(* ---- a generic decision-tree walk for tie proofs (the shape of UstackTie.tree_walk, with the leaf tactic as a parameter) ----
+   the outermost test of the LEFT side, then any test left anywhere, is split on its first atom (negb, ||, && are looked
+   through); one destruct per atom, the equation is kept (and the test is rewritten everywhere by destruct). *)
+Ltac c2g_cond_split c :=
+  lazymatch c with
+  | negb ?a => c2g_cond_split a
+  | (?a || ?b)%bool => c2g_cond_split a
+  | (?a && ?b)%bool => c2g_cond_split a
+  | _ => let H := fresh "Hcond" in destruct c eqn:H
+  end.
+
+Ltac c2g_walk leaf :=
+  cbv beta iota zeta; cbn [negb andb orb];
+  lazymatch goal with
+  | |- (if ?c then _ else _) = _ => c2g_cond_split c; c2g_walk leaf
+  | |- ?L = ?R =>
+      lazymatch L with
+      | context [if ?c then _ else _] => c2g_cond_split c; c2g_walk leaf
+      | _ => lazymatch R with
+             | context [if ?c then _ else _] => c2g_cond_split c; c2g_walk leaf
+             | _ => leaf
+             end
+      end
+  end.
+
+(* equality of two integer terms up to linear arithmetic under applications of uninterpreted functions (m (a + b) = m (b + a)):
+   two applications f a, f b of a VARIABLE f whose arguments are equal by lia are made syntactically equal first (innermost
+   applications get their turn through backtracking), then lia sees each f a as one atom *)
+Ltac c2g_congr :=
+  repeat match goal with
+         | |- context [?f ?a] =>
+             is_var f;
+             match goal with
+             | |- context [f ?b] => tryif constr_eq a b then fail else (replace (f a) with (f b) by (apply f_equal; lia))
+             end
+         end.
+Ltac c2g_arith := solve [ c2g_congr; first [ reflexivity | lia ] ].
+(* componentwise equality of result tuples; array components are compared store by store *)
+Ltac c2g_tuple :=
+  repeat match goal with
+         | |- (_, _) = (_, _) => apply (f_equal2 (@pair _ _))
+         | |- Some _ = Some _ => apply f_equal
+         | |- Returned _ = Returned _ => apply f_equal
+         | |- zupd _ _ _ = zupd _ _ _ => apply zupd_eq
+         end.
